@@ -195,6 +195,7 @@ class Ctx:
             self.elems = []
         self.keys = list(value.keys()) if isinstance(value, dict) else []
         self.n = len(self.elems)
+        self.value = value
 
 
 def pos(rng, c):
@@ -247,6 +248,28 @@ def deep_dict(rng, depth=0):
         else:
             d[k] = rng.choice(INTS + ['x'])
     return FD(d)
+
+
+def related_dict(rng, d, depth=0):
+    out = {}
+    for k, v in d.items():
+        r = rng.random()
+        if r < 0.12:
+            continue
+        if r < 0.5:
+            out[k] = v
+        elif r < 0.62:
+            twins = {1: True, 0: False, True: 1, False: 0}
+            out[k] = twins[v] if (isinstance(v, (int, bool)) and v in twins) else v
+        elif r < 0.8 and isinstance(v, dict) and depth < 2:
+            out[k] = related_dict(rng, v, depth + 1)
+        elif r < 0.8 and isinstance(v, tuple):
+            out[k] = v + tuple(rng.choice(v) for _ in range(rng.randrange(0, 2))) if v else v
+        else:
+            out[k] = rng.choice([rng.choice(INTS + ['x']), tuple(rng.choice(INTS) for _ in range(rng.randrange(0, 3)))])
+    for k in rng.sample(KEYS, rng.randrange(0, 2)):
+        out.setdefault(k, rng.choice(INTS + ['x']))
+    return FD(out)
 
 
 ALIASES = {'filter': 'where', 'map': 'select', 'reduce': 'aggregate', 'limit': 'take', 'intByList': 'timesInt'}
@@ -319,7 +342,10 @@ def gen_op(rng, name, c):
         a['f2'] = lam2_for(rng, 'fold')
         maybe(rng, a, 'v', lambda: some_elem(rng, c), 0.4)
     elif name == 'mergeWith':
-        a['kv'] = deep_dict(rng)
+        # half of the time the other dict is a relative of the receiver: shared keys with the same value, with an equal
+        # value of another type, with lists that repeat elements, with other values; keys left out and added
+        a['kv'] = related_dict(rng, c.value) if isinstance(getattr(c, 'value', None), dict) and rng.random() < 0.6 \
+            else deep_dict(rng)
         a['f2'] = rng.choice([None, None, ['plus'], ['fst'], ['snd']])
         a['g2'] = rng.choice([None, None, ['fst'], ['plus'], ['pair']])
         a['n'] = rng.choice([0, 0, 1, 2])
@@ -554,6 +580,8 @@ def pipeline(rng, fname, max_ops=4):
         value = tuple(one) if kind == 'list' else Iter(one)
     if fname in ('generate', 'generateManyTake'):
         value = rng.choice([0, 1, 2])
+    if fname == 'mergeWith' and kind == 'dict' and not pre and rng.random() < 0.6:
+        value = deep_dict(rng)              # nested dicts and lists (with repeated elements) to merge into
     c = Ctx(kind, prof, value)
     ops = [gen_op(rng, n, c) for n in pre + [fname]]
     cur = RESULT_KIND[fname]
